@@ -1,11 +1,16 @@
 (** C17: concurrent keystore writers never lose each other's updates (keystore v2).
-    General results: the lock discipline (a write operation is one section under the exclusive
-    lock; nobody else steps while it is held), a committed update - whatever stale snapshot its
-    transactions were computed from - only appends a fresh seqnum or rewrites the key it names.
-    Serializability, "seqnums unique and increasing" and "readers see complete rings" in EVERY
-    interleaving are established by exhaustive computation inside Coq for two writers (bounded:
-    see [C17_writers_serializable_bounded]); the unbounded simulation proof is not done. *)
-From Acra Require Import Lib.Bytes Lib.Outcome Gen.KswConsts Model.KeystoreWrite Model.RunKeystoreWrite Proofs.KeystoreWrite Proofs.KeystoreConc.
+    General results (any number of handles, any programs, EVERY interleaving at the granularity of
+    back-end calls): the lock discipline (every operation - OpenKeyRingRW on a missing ring included -
+    is a sequence of sections under the store lock; while a handle holds the exclusive lock nobody
+    else steps; only the holder of the exclusive lock changes the storage), stored rings only grow
+    and a ring file is never replaced by an empty ring once a key has been committed to it
+    ([C17_creation_is_atomic]), a committed update - whatever stale snapshot its transactions were
+    computed from - only appends a fresh seqnum or rewrites the key it names.
+    Serializability (final storage, results and in-memory rings = those of a run in which the
+    locked sections are not interleaved) is established by exhaustive computation inside Coq for
+    bounded configurations and EVERY schedule (see [C17_writers_serializable_bounded]); the
+    unbounded simulation proof of serializability is not done. *)
+From Acra Require Import Lib.Bytes Lib.Outcome Gen.KswConsts Model.KeystoreWrite Model.RunKeystoreWrite Proofs.KeystoreWrite Proofs.KeystoreConc Proofs.KeystoreLock.
 Local Open Scope Z_scope.
 
 (** every write operation either makes no back-end call or starts by taking the exclusive lock *)
@@ -14,6 +19,14 @@ Theorem C17_write_takes_exclusive_lock :
 Proof. exact ring_op_head. Qed.
 Print Assumptions C17_write_takes_exclusive_lock.
 
+(** so does everything a handle can run: OpenKeyRingRW (which creates a missing ring), generate,
+    destroy-current: the existence check of the ring is made under the EXCLUSIVE lock *)
+Theorem C17_operation_takes_exclusive_lock :
+  forall hr o, match hr with Some h => h_log h = [] | None => True end ->
+    (exists r, hop_prog hr o = Done r) \/ (exists k, hop_prog hr o = Call BLock k).
+Proof. exact hop_prog_head. Qed.
+Print Assumptions C17_operation_takes_exclusive_lock.
+
 (** while handle i holds the exclusive lock a handle waiting at Lock/RLock (or finished) cannot step *)
 Theorem C17_lock_excludes :
   forall g i j h, g_lock g = LExcl i -> nth_error (g_hs g) j = Some h ->
@@ -21,6 +34,50 @@ Theorem C17_lock_excludes :
     gstep g j = None.
 Proof. exact blocked_while_locked. Qed.
 Print Assumptions C17_lock_excludes.
+
+(** lock scope, for every state reachable by ANY interleaving of ANY handles ([ginv] holds initially
+    and is kept by every step): while handle i holds the exclusive lock NO other handle can step, and
+    a step of a handle that does not hold the exclusive lock leaves the storage as it is *)
+Theorem C17_lock_scope :
+  forall st hs sched, (forall h, In h hs -> hd_cur h = None) ->
+    let g := grun (mk_g st LFree hs) sched in
+    (forall i j, g_lock g = LExcl i -> j <> i -> gstep g j = None) /\
+    (forall j g', gstep g j = Some g' -> g_lock g <> LExcl j -> g_st g' = g_st g).
+Proof.
+  intros st hs sched Hinit g.
+  destruct (grun_mono _ sched (ginv_init st hs Hinit)) as [Hg _]. fold g in Hg.
+  split.
+  - intros i j Hl Hj. exact (excl_blocks_others g i j Hg Hl Hj).
+  - intros j g' Hs Hl. exact (only_lock_holder_writes g j g' Hg Hs Hl).
+Qed.
+Print Assumptions C17_lock_scope.
+
+(** stored rings only grow, in every interleaving: a ring that is stored (and verifies) stays
+    stored and verifying and its seqnums are only extended - whatever the handles run *)
+Theorem C17_stored_rings_only_grow :
+  forall st hs sched1 sched2, (forall h, In h hs -> hd_cur h = None) ->
+    let g1 := grun (mk_g st LFree hs) sched1 in
+    forall rid r, lookup (FRing rid) (g_st g1) = Some (CRing true r) ->
+      exists r' ext, lookup (FRing rid) (g_st (grun g1 sched2)) = Some (CRing true r') /\ seqs r' = seqs r ++ ext.
+Proof.
+  intros st hs sched1 sched2 Hinit g1 rid r Hl.
+  destruct (grun_mono _ sched1 (ginv_init st hs Hinit)) as [Hg1 _]. fold g1 in Hg1.
+  destruct (grun_mono g1 sched2 Hg1) as [_ Hm]. exact (Hm rid r Hl).
+Qed.
+Print Assumptions C17_stored_rings_only_grow.
+
+(** ring creation is atomic: OpenKeyRingRW creates a ring only under the exclusive lock after a
+    re-read, so for every interleaving a ring file is never overwritten by an empty ring (nor by
+    any ring lacking a committed key) once some handle's update to it has been committed *)
+Theorem C17_creation_is_atomic :
+  forall st hs sched1 sched2 rid r,
+    (forall h, In h hs -> hd_cur h = None) ->
+    let g1 := grun (mk_g st LFree hs) sched1 in
+    lookup (FRing rid) (g_st g1) = Some (CRing true r) -> r_keys r <> [] ->
+    exists r' ext, lookup (FRing rid) (g_st (grun g1 sched2)) = Some (CRing true r') /\
+                   seqs r' = seqs r ++ ext /\ r_keys r' <> [].
+Proof. exact creation_is_atomic. Qed.
+Print Assumptions C17_creation_is_atomic.
 
 (** stale views fail the optimistic checks instead of overwriting: a committed update, computed
     from ANY earlier snapshot, keeps the ring well formed, only appends seqnums, and leaves every
@@ -34,41 +91,72 @@ Theorem C17_committed_update_keeps_others :
 Proof. exact committed_update_keeps_keys. Qed.
 Print Assumptions C17_committed_update_keeps_others.
 
-(** partial (bounded): for two writers on one ring, each running one operation of the alphabet,
-    with in-sync or stale snapshots, under EVERY interleaving of their back-end calls: every
-    intermediate storage has only complete, verifying, well-formed rings whose seqnums extend the
-    initial ones (readers_see_complete_rings, seqnums_unique_increasing), and the final storage,
-    the operations' results and the in-memory rings are those of one of the two serial orders
-    (writers_serializable). Missing for the full statement: arbitrary many handles, operations
-    and histories (the simulation proof over [gstep]). *)
+(** partial (bounded configurations, UNBOUNDED schedules). For
+      (1) two writers holding in-sync or stale key ring objects of an existing ring, one operation of
+          the 10-operation alphabet each;
+      (2) two handles without a key ring object racing on the CREATION of ring 1 - programs
+          OpenKeyRingRW, +AddKey, +AddKey+SetCurrent, generate, destroy-current - on an empty store, a
+          store holding another ring, a store holding the temporary file of an interrupted creation;
+      (2') the same with the longer programs (a second AddKey, two generate calls), empty store;
+      (3) THREE handles racing on the creation (OpenKeyRingRW, +AddKey, generate);
+    and for EVERY schedule (any list of handle indices): every storage reached holds only
+    complete, verifying, well-formed rings; every possible next step keeps all stored rings and only
+    extends their seqnums; and when nobody can step any more the storage, the operations' results
+    and the in-memory rings are those of a run in which whole locked sections (= whole ring-level
+    operations) are executed one after the other in some order ([runs_ok]).
+    Missing for the full statement: arbitrary many handles, operations and histories for the
+    serializability part (the simulation proof over [gstep]). *)
 Theorem C17_writers_serializable_bounded :
-  forall o0 o1 sched,
-    In o0 c17_alphabet -> In o1 c17_alphabet -> In sched (inter 10 5 5) ->
-    forall h1, (h1 = mk_hring 1 c17_ring [] \/ h1 = mk_hring 1 c17_stale []) ->
-    let h0 := mk_hring 1 c17_ring [] in
-    let g0 := mk_g c17_st LFree [mk_handle h0 [o0] None []; mk_handle h1 [o1] None []] in
-    let r := grun_check (fun g => wf_b (g_st g) && grows_b 1 c17_ring (g_st g)) g0 (sched ++ fair_tail) in
-    fst r = true /\
-    let o := enc_storage (g_st (snd r)) :: map obs_handle (g_hs (snd r)) in
-    (o = serial2 c17_st h0 h1 o0 o1 true \/ o = serial2 c17_st h0 h1 o0 o1 false).
-Proof.
-  intros o0 o1 sched H0 H1 Hs h1 Hh.
-  pose proof (writers_serializable_bounded o0 o1 sched H0 H1 Hs) as H.
-  unfold c17_both in H. apply andb_true_iff in H as [Ha Hb].
-  destruct Hh as [E|E]; rewrite E; apply sched_ok_spec; assumption.
-Qed.
+  (forall o0 o1 h1, In o0 c17_alphabet -> In o1 c17_alphabet -> In h1 c17_snapshots ->
+     runs_ok c17_st [c17_writer (mk_hring 1 c17_ring []) o0; c17_writer h1 o1]) /\
+  (forall st p0 p1, In st c17_fresh_storages -> In p0 (c17_creation_short 7) -> In p1 (c17_creation_short 17) ->
+     runs_ok st [fresh p0; fresh p1]) /\
+  (forall p0 p1, In p0 (c17_creation_long 7 8) -> In p1 (c17_creation_progs 17 18) ->
+     runs_ok [] [fresh p0; fresh p1]) /\
+  (forall p0 p1 p2, In p0 (c17_creation_progs3 7) -> In p1 (c17_creation_progs3 17) -> In p2 (c17_creation_progs3b 27) ->
+     runs_ok [] [fresh p0; fresh p1; fresh p2]).
+Proof. exact writers_serializable_bounded. Qed.
 Print Assumptions C17_writers_serializable_bounded.
 
 (** non-vacuity: two writers with the same (in-sync) snapshot both add a key: both compute seqnum 3;
     exactly the one that takes the lock first succeeds, the other fails (errTxKeyExists) *)
 Example C17_ex_two_adds :
   let h := mk_hring 1 c17_ring [] in
-  let g := grun (mk_g c17_st LFree [mk_handle h [WAdd 7] None []; mk_handle h [WAdd 9] None []])
+  let g := grun (mk_g c17_st LFree [c17_writer h (WAdd 7); c17_writer h (WAdd 9)])
                 ([1; 0; 1; 0; 1; 0; 1; 1; 0; 0; 0; 0; 0]%nat) in
   map (fun x => hd_out (settled x)) (g_hs g) = [[Err E_TX_EXISTS]; [Ok 3]] /\
   stored_ring (g_st g) 1 = Some (mk_ring [mk_kent 1 2 5; mk_kent 2 1 6; mk_kent 3 KSW_PREACTIVE 9] 1) /\
-  g_lock g = LFree.
-Proof. vm_compute. repeat split; reflexivity. Qed.
+  g_lock g = LFree /\ (forall i, gstep g i = None).
+Proof.
+  cbv zeta. repeat split; try (vm_compute; reflexivity).
+  apply (succs_terminal 2); vm_compute; reflexivity.
+Qed.
 
-Example C17_ex_alphabet : In (WAdd 7) c17_alphabet /\ In [0;1;0;1;0;1;0;1;0;1]%nat (inter 10 5 5).
-Proof. split; vm_compute; tauto. Qed.
+(** non-vacuity of the creation race: handle 0 is granted the lock first, finds no ring and creates
+    it; handle 1 (generate) waits at its Lock, then finds the ring, adds key 1 and makes it current;
+    the run is terminal and its observation is one of the serial ones (there are several) *)
+Example C17_ex_creation_race :
+  let hs := [fresh [HOpen 1]; fresh [HGen 1 17]] in
+  let g := grun (mk_g [] LFree hs) ([0; 1; 0; 1; 0; 1; 0; 1; 0; 1; 1; 1; 1; 1; 1; 1; 1; 1; 1; 1; 1; 1]%nat) in
+  stored_ring (g_st g) 1 = Some (mk_ring [mk_kent 1 KSW_PREACTIVE 17] 1) /\
+  map (fun x => hd_out (settled x)) (g_hs g) = [[Ok 0]; [Ok 0]] /\
+  (forall i, gstep g i = None) /\
+  In (obs_g g) (serial_outs c17_sfuel 2 (mk_g [] LFree hs)) /\
+  (1 < length (serial_outs c17_sfuel 2 (mk_g [] LFree hs)))%nat.
+Proof.
+  cbv zeta. split; [vm_compute; reflexivity|]. split; [vm_compute; reflexivity|].
+  split; [apply (succs_terminal 2); vm_compute; reflexivity|].
+  split; [vm_compute; tauto|vm_compute; lia].
+Qed.
+
+Example C17_ex_alphabet :
+  In (WAdd 7) c17_alphabet /\ In [HGen 1 7] (c17_creation_short 7) /\ In [HOpen 1; HRing (WAdd 17)] (c17_creation_short 17) /\
+  In [(FRingNew 1, CRing false c17_ring)] c17_fresh_storages.
+Proof. vm_compute. tauto. Qed.
+
+(** non-vacuity of [C17_creation_is_atomic]: a state with a committed key is reached *)
+Example C17_ex_creation_is_atomic :
+  forall sched2, exists r' ext,
+    lookup (FRing 1) (g_st (grun (grun ex_g0 (repeat O 15)) sched2)) = Some (CRing true r') /\
+    seqs r' = seqs ex_key_ring ++ ext /\ r_keys r' <> [].
+Proof. exact ex_creation_is_atomic. Qed.
